@@ -494,7 +494,7 @@ pub fn run(tier: Tier) -> Report {
     rep.rule = "programs: the well-typed family, every member of the expression/statement families (typed or not), all statements up to the token bound over fault pools (undeclared names, a type and a procedure used as variables, variables called, wrong argument counts), and declaration-level faults at two placements; each is classified by the reference checker: no violation -> no diagnostic at all; exactly one violation -> >=1 diagnostic of that rule inside the construct's byte span and none of any other rule; more -> skipped and counted; x layouts/comment placements; published diagnostics equal errors() converted by the LSP text model; distinct_nontrivial = well-typed + single-fault programs".into();
     rep.bounds = json!({"programs": items.len(), "well_typed": st.well_typed, "single_fault_by_rule": st.single_fault, "skipped_multi_fault": st.skipped_multi_fault, "syntax_fault_cases": syn_evals.load(Ordering::Relaxed), "rules_without_single_fault_program": missing_rules});
     rep.sample(json!({"text": "proc main() { var i: int; i := zz; }", "expected": "UndefinedVariable on zz only"}));
-    rep.assumptions = vec!["reference checker refsem.rs (independent implementation of the SPL declaration/type rules, name equivalence by type-expression identity)".into(), "unary minus on a non-integer operand is outside both sub-families (the implementation has no message kind for it)".into()];
+    rep.assumptions = vec!["reference checker refsem.rs (independent implementation of the SPL declaration/type rules, name equivalence by type-expression identity)".into(), "a unary minus on a non-integer operand is reported with the message kind of the arithmetic operators".into()];
     rep.failures = fails;
     rep
 }
